@@ -22,8 +22,8 @@ META = dict(
     stubs=["open() of /proc/<pid>/{stat,status,smaps,smaps_rollup,statm} rendered at the current record version; each read is tagged with the psutil frame and object that issued it"],
     bounds=dict(quick=dict(sequence="K<=3 events from {8 methods, record change, nested block} with symbolic block entry/exit positions, with and without an exception inside the block", as_dict="symbolic subset of 5 attribute names, invalid name, non-collection"),
                 thorough=dict(sequence="K<=4", as_dict="as quick")),
-    outside=["longer sequences", "interleavings with other threads finer than whole calls (see the C16.threads harness when present)"],
-    labels=["value-from-first-read-version", "each-source-read-at-most-once-per-block", "fresh-read-outside-block", "cache-gone-after-exit", "as_dict-keys", "as_dict-invalid-name-ValueError", "as_dict-non-collection-TypeError"],
+    outside=["longer sequences", "more than 2 threads / 2 pre-emptions; races inside one source line; the kernel record changing while two threads are inside calls"],
+    labels=["value-from-first-read-version", "each-source-read-at-most-once-per-block", "fresh-read-outside-block", "cache-gone-after-exit", "as_dict-keys", "as_dict-invalid-name-ValueError", "as_dict-non-collection-TypeError", "threads-no-spurious-error"],
 )
 
 
@@ -214,3 +214,42 @@ def as_dict(ctx, kind):
         for a in want:
             V.check_value(ctx, a, d[a], 0, "value-from-first-read-version")
         ctx.prove(not hasattr(p, "_cache") and not hasattr(p._proc, "_cache"), "cache-gone-after-exit")
+
+
+@harness("C16.threads", quick=[dict(P=1, b="cpu_times"), dict(P=1, b="num_threads")], thorough=[dict(P=2, b=m) for m in ("cpu_times", "num_threads", "ppid", "memory_full_info")], timeout_ms=5000)
+def threads(ctx, P, b):
+    """a thread using oneshot() interleaved (source-line granularity, at most P pre-emptions) with a thread calling a plain
+    method on the same object: no spurious error, every value is the record's value"""
+    from psv import sched
+
+    k = simk.Kernel(ctx)
+    simk.system_files(k)
+    simk.full_process(k, P_ := 77)
+    k.files["/proc/stat"] = "cpu  1 2 3 4 5 6 7 8 9 10\ncpu0 1 2 3 4 5 6 7 8 9 10\nbtime 1000\n"
+    V = Versions(ctx, k)
+    V.install()
+    S = sched.Scheduler(ctx, budget=P)
+    with k.installed(extra=[(psutil, "threading", sched.ThreadingProxy(S))]):
+        p = psutil.Process(P_)
+        V.holder["proc"] = p._proc
+
+        def A():
+            with p.oneshot():
+                return (p.cpu_times(), p.num_threads(), p.uids())
+
+        def B():
+            return (getattr(p, b)(), getattr(p, b)())
+
+        res = S.run([A, B])
+    for i in (0, 1):
+        kind, val = res[i]
+        ctx.prove(kind == "ok", "threads-no-spurious-error", detail=f"thread {'AB'[i]}: {val!r} after pre-emptions at {S.trace}")
+    if res[0][0] == "ok":
+        ct, nt, u = res[0][1]
+        V.check_value(ctx, "cpu_times", ct, 0, "threads-values-valid")
+        V.check_value(ctx, "num_threads", nt, 0, "threads-values-valid")
+        V.check_value(ctx, "uids", u, 0, "threads-values-valid")
+    if res[1][0] == "ok":
+        for r in res[1][1]:
+            V.check_value(ctx, b, r, 0, "threads-values-valid")
+    ctx.prove(not hasattr(p, "_cache") and not hasattr(p._proc, "_cache"), "cache-gone-after-exit")
